@@ -76,7 +76,7 @@ func c02Setup(nmax int, allowZeroTargets bool) (*c02Ghost, RawConfiguration, []*
 		g.inQF = true
 		vAssert(!g.quorumSeen, "C01.qf-after-quorum")
 		vAssert(r == protoreflect.ProtoMessage(g.req), "C01.qf-request-identity")
-		vAssert(len(replies) == g.lastLen+1, "C01.qf-replyset-grows-by-one")
+		vAssert(len(replies) == g.lastLen+1, "C01.qf-replyset-grows-by-one|C02.quorum-function-not-consulted-at-every-reply")
 		g.lastLen = len(replies)
 		for id, m := range replies {
 			i := int(id) - 1
